@@ -24,18 +24,6 @@ def findChained : (k : Nat) → (base : Nat) → List Bytes → Option Nat
       (if k == 1 then some base else findChained (k - 1) (base + 1) ls)
     else findChained k (base + 1) ls
 
-/-- index of the line whose operand is addressed by (id, chain offset k).
-    `.error .runtime`: the id is on line 0 and k = 0 (Go indexes `lines[-1]`). -/
-def targetIndex (id : Bytes) (k : Nat) : (base : Nat) → List Bytes → Except Fault Nat
-  | _, [] => .error .diag
-  | base, l :: ls =>
-    if contains (b!"id:" ++ id) l then
-      (if k == 0 then (if base == 0 then .error .runtime else .ok (base - 1))
-       else match findChained k (base + 1) ls with
-         | some i => .ok i
-         | none => .error .diag)
-    else targetIndex id k (base + 1) ls
-
 /-- end of the first occurrence of `"@rx ` or `"!@rx `: (text up to and including it, rest) -/
 def splitAtOperator : Bytes → Option (Bytes × Bytes)
   | [] => none
@@ -66,6 +54,22 @@ def splitOperand (line : Bytes) : Option (Bytes × Bytes × Bytes) :=
     match splitAtLastClose rest with
     | none => none
     | some (operand, post) => some (pre, operand, post)
+
+/-- the line that carries the rule's `id:R` action: it mentions `id:R` and is not an operand line — text inside an
+    `@rx` operand (of this or of another rule) is not an id -/
+def isIdLine (id l : Bytes) : Bool := contains (b!"id:" ++ id) l && (splitOperand l).isNone
+
+/-- index of the line whose operand is addressed by (id, chain offset k).
+    `.error .runtime`: the id is on line 0 and k = 0 (Go indexes `lines[-1]`). -/
+def targetIndex (id : Bytes) (k : Nat) : (base : Nat) → List Bytes → Except Fault Nat
+  | _, [] => .error .diag
+  | base, l :: ls =>
+    if isIdLine id l then
+      (if k == 0 then (if base == 0 then .error .runtime else .ok (base - 1))
+       else match findChained k (base + 1) ls with
+         | some i => .ok i
+         | none => .error .diag)
+    else targetIndex id k (base + 1) ls
 
 def setAt : List Bytes → Nat → Bytes → List Bytes
   | [], _, _ => []
